@@ -52,3 +52,95 @@ def symbolic_numpy(modules=None):
     for m in modules or NP_MODULES:
       st.enter_context(rebind(m, 'np', symnp.PROXY))
     yield
+
+
+# ---------------------------------------------------------------------------
+# model of "a fresh process": process-wide mutable state of the repo's modules
+# (module globals, class attributes and singleton attributes that are
+# dict/list/set/bytearray containers, functools caches) is captured once,
+# right after import, and put back on demand.  Whatever a call history left
+# behind in such state is gone afterwards, exactly as in a new interpreter.
+# ---------------------------------------------------------------------------
+_PRISTINE = None
+_CONTAINERS = (dict, list, set, bytearray)
+
+
+def _repo_modules():
+  import sys
+  return [m for n, m in sorted(sys.modules.items())
+          if n.startswith('ai_edge_quantizer') and m is not None
+          and (getattr(m, '__file__', None) or '').startswith('/repo/')]
+
+
+def _copy1(v):
+  return type(v)(v)
+
+
+def _holders():
+  """(holder, attribute name) pairs whose value is a mutable container."""
+  seen, out = set(), []
+  for m in _repo_modules():
+    for name, v in list(vars(m).items()):
+      if name.startswith('__'):
+        continue
+      if isinstance(v, _CONTAINERS):
+        out.append((m, name))
+      elif isinstance(v, type) and getattr(v, '__module__', '') == m.__name__:
+        for an, av in list(vars(v).items()):
+          if isinstance(av, _CONTAINERS) and not an.startswith('__'):
+            out.append((v, an))
+      elif (type(v).__module__ or '').startswith('ai_edge_quantizer') and \
+          hasattr(v, '__dict__') and not isinstance(v, type) and \
+          id(v) not in seen and not callable(v):
+        seen.add(id(v))
+        for an, av in list(vars(v).items()):
+          if isinstance(av, _CONTAINERS):
+            out.append((v, an))
+  return out
+
+
+def snapshot_process_state():
+  """Call once, before any repo API call of the check."""
+  global _PRISTINE
+  if _PRISTINE is None:
+    _PRISTINE = [(h, n, getattr(h, n), _copy1(getattr(h, n)))
+                 for h, n in _holders()]
+  return len(_PRISTINE)
+
+
+def fresh_process_state():
+  """Put every captured container back to its import-time content (same
+  object, so aliases held elsewhere see it too), empty containers that did
+  not exist at import time, clear functools caches."""
+  snapshot_process_state()
+  known = set()
+  for h, n, obj, content in _PRISTINE:
+    known.add((id(h), n))
+    if isinstance(obj, dict):
+      obj.clear()
+      obj.update(content)
+    elif isinstance(obj, set):
+      obj.clear()
+      obj.update(content)
+    else:
+      obj[:] = content
+    try:
+      setattr(h, n, obj)
+    except (AttributeError, TypeError):
+      pass
+  for h, n in _holders():
+    if (id(h), n) not in known:
+      v = getattr(h, n)
+      if isinstance(v, (dict, set)):
+        v.clear()
+      else:
+        del v[:]
+  import functools
+  for m in _repo_modules():
+    for v in list(vars(m).values()):
+      for f in [v] + ([x for x in vars(v).values()] if isinstance(v, type)
+                      and getattr(v, '__module__', '') == m.__name__ else []):
+        f = getattr(f, '__func__', f)
+        cc = getattr(f, 'cache_clear', None)
+        if callable(cc):
+          cc()
